@@ -13,6 +13,15 @@ from props import catalogue as cat
 HORIZON = 3000
 
 
+def _show(v) -> str:
+    """a printable, address-free rendering of an element (for comparing two runs of the same scenario)"""
+    import re
+    try:
+        return re.sub(r" at 0x[0-9a-f]+", "", repr(v))[:120]
+    except Exception:
+        return type(v).__name__
+
+
 class _Hang(BaseException):
     pass
 
@@ -57,7 +66,7 @@ def run_pipeline(spec: Dict[str, Any]) -> Dict[str, Any]:
             if g not in gdone:
                 gsubs[g] = d
         else:
-            ctx.ev(e="sink", k="N")
+            ctx.ev(e="sink", k="N", v=_show(v))
 
     def subscribe(_s=None, _st=None):
         holder["d"] = ys.subscribe(on_next=on_next, on_error=lambda e: ctx.ev(e="sink", k="E", err=type(e).__name__),
